@@ -174,23 +174,42 @@ static void wkd_rows(void) {
     mk_list(at2, al2, 0, 9);
     ROW(embedded_pairing_wkdibe_resamplekey, { SKCLR(); embedded_pairing_wkdibe_precompute(&pc1, &w.p, &al2); RESEED(t); embedded_pairing_wkdibe_resamplekey(&s1, &w.p, &pc1, &par, t & 1, rng_cb); RESEED(t);
         wk::resamplekey(*(wk::SecretKey*) &s2, PP, *(wk::Precomputed*) &pc1, *(wk::SecretKey*) &par, t & 1, rng_cb); ok = sk_eq(s1, s2); })
+    // keys of trial-dependent patterns (fixed / free / hidden per slot) and signing lists that extend them over a subset of the free slots
+    embedded_pairing_wkdibe_freeslot_t bk[L]; embedded_pairing_wkdibe_secretkey_t kt; memset(&kt, 0, sizeof kt); kt.b = bk;
+    embedded_pairing_wkdibe_attribute_t atk[L], ats[L]; embedded_pairing_wkdibe_attributelist_t alk, als;
+    auto make_key = [&](int t) {
+        int n = 0, ns = 0;
+        for (int i = 0; i < L; i++) {
+            unsigned hsh = (unsigned) (((uint64_t) t * 2654435761ull + (uint64_t) i * 40503ull + 12345ull) & 0xffffffffull) >> 7;
+            int st = (int) (hsh % 3);          // 0 fixed, 1 free, 2 hidden
+            if (st == 0) { memset(&atk[n], 0, sizeof atk[n]); atk[n].idx = (uint32_t) i; uint64_t v = 900 + i; memcpy(&atk[n].id, &v, 8); ats[ns++] = atk[n]; n++; }
+            else if (st == 2) { memset(&atk[n], 0, sizeof atk[n]); atk[n].idx = (uint32_t) i; atk[n].omitFromKeys = true; n++; }
+            else if (st == 1 && ((hsh >> 5) & 1)) { memset(&ats[ns], 0, sizeof ats[ns]); ats[ns].idx = (uint32_t) i; uint64_t v = 70 + t + i; memcpy(&ats[ns].id, &v, 8); ns++; }
+        }
+        alk.attrs = atk; alk.length = (size_t) n; alk.omitAllFromKeysUnlessPresent = false;
+        als.attrs = ats; als.length = (size_t) ns; als.omitAllFromKeysUnlessPresent = false;
+        RESEED(1000 + t); embedded_pairing_wkdibe_keygen(&kt, &w.p, &w.m, &alk, rng_cb);
+    };
     embedded_pairing_wkdibe_ciphertext_t c1, c2; Fq12 msg, d1, d2;
-    ROW(embedded_pairing_wkdibe_encrypt, { gen(msg, t + 1); RESEED(t); embedded_pairing_wkdibe_encrypt(&c1, (cgt*) &msg, &w.p, &al2, rng_cb); RESEED(t);
-        wk::encrypt(*(wk::Ciphertext*) &c2, msg, PP, *(wk::AttributeList*) &al2, rng_cb); ok = eq(c1, c2); })
-    ROW(embedded_pairing_wkdibe_encrypt_precomputed, { gen(msg, t + 1); embedded_pairing_wkdibe_precompute(&pc1, &w.p, &al2); RESEED(t); embedded_pairing_wkdibe_encrypt_precomputed(&c1, (cgt*) &msg, &w.p, &pc1, rng_cb); RESEED(t);
+    ROW(embedded_pairing_wkdibe_encrypt, { make_key(t); gen(msg, t + 1); RESEED(t); embedded_pairing_wkdibe_encrypt(&c1, (cgt*) &msg, &w.p, &als, rng_cb); RESEED(t);
+        wk::encrypt(*(wk::Ciphertext*) &c2, msg, PP, *(wk::AttributeList*) &als, rng_cb); ok = eq(c1, c2); })
+    ROW(embedded_pairing_wkdibe_encrypt_precomputed, { make_key(t); gen(msg, t + 1); embedded_pairing_wkdibe_precompute(&pc1, &w.p, &als); RESEED(t); embedded_pairing_wkdibe_encrypt_precomputed(&c1, (cgt*) &msg, &w.p, &pc1, rng_cb); RESEED(t);
         wk::encrypt_precomputed(*(wk::Ciphertext*) &c2, msg, PP, *(wk::Precomputed*) &pc1, rng_cb); ok = eq(c1, c2); })
     ROW(embedded_pairing_wkdibe_decrypt, { memset(&d1, 0x11, sizeof d1); memset(&d2, 0x11, sizeof d2); gen(msg, t + 1); RESEED(t); embedded_pairing_wkdibe_encrypt(&c1, (cgt*) &msg, &w.p, &al2, rng_cb);
         embedded_pairing_wkdibe_decrypt((cgt*) &d1, &c1, &par); wk::decrypt(d2, *(wk::Ciphertext*) &c1, *(wk::SecretKey*) &par); ok = eq(d1, d2) && eq(d1, msg); })
     ROW(embedded_pairing_wkdibe_decrypt_master, { memset(&d1, 0x11, sizeof d1); memset(&d2, 0x11, sizeof d2); gen(msg, t + 1); RESEED(t); embedded_pairing_wkdibe_encrypt(&c1, (cgt*) &msg, &w.p, &al2, rng_cb);
         embedded_pairing_wkdibe_decrypt_master((cgt*) &d1, &c1, &w.m); wk::decrypt_master(d2, *(wk::Ciphertext*) &c1, MK); ok = eq(d1, d2) && eq(d1, msg); })
     embedded_pairing_wkdibe_signature_t g1s, g2s; BigInt<256> m;
-    ROW(embedded_pairing_wkdibe_sign, { gen(m, t); RESEED(t); embedded_pairing_wkdibe_sign(&g1s, &w.p, &par, &al2, (ck*) &m, rng_cb); RESEED(t);
-        wk::sign(*(wk::Signature*) &g2s, PP, *(wk::SecretKey*) &par, (wk::AttributeList*) &al2, m, rng_cb); ok = eq(g1s, g2s); })
-    ROW(embedded_pairing_wkdibe_sign_precomputed, { gen(m, t); embedded_pairing_wkdibe_precompute(&pc1, &w.p, &al2); RESEED(t); embedded_pairing_wkdibe_sign_precomputed(&g1s, &w.p, &par, t & 1 ? &al2 : NULL, &pc1, (ck*) &m, rng_cb); RESEED(t);
-        wk::sign_precomputed(*(wk::Signature*) &g2s, PP, *(wk::SecretKey*) &par, t & 1 ? (wk::AttributeList*) &al2 : NULL, *(wk::Precomputed*) &pc1, m, rng_cb); ok = eq(g1s, g2s); })
-    ROW(embedded_pairing_wkdibe_verify, { gen(m, t + 2); RESEED(t); embedded_pairing_wkdibe_sign(&g1s, &w.p, &par, &al2, (ck*) &m, rng_cb); if (t % 3 == 0) m.bytes[0] ^= 1;
-        bool ra = embedded_pairing_wkdibe_verify(&w.p, &al2, &g1s, (ck*) &m); bool rb = wk::verify(PP, *(wk::AttributeList*) &al2, *(wk::Signature*) &g1s, m); ok = ra == rb && ra == (t % 3 != 0); })
-    ROW(embedded_pairing_wkdibe_verify_precomputed, { gen(m, t + 2); RESEED(t); embedded_pairing_wkdibe_sign(&g1s, &w.p, &par, &al2, (ck*) &m, rng_cb); if (t % 3 == 0) m.bytes[0] ^= 1; embedded_pairing_wkdibe_precompute(&pc1, &w.p, &al2);
+    ROW(embedded_pairing_wkdibe_sign, { make_key(t); gen(m, t); RESEED(t); embedded_pairing_wkdibe_sign(&g1s, &w.p, &kt, &als, (ck*) &m, rng_cb); RESEED(t);
+        wk::sign(*(wk::Signature*) &g2s, PP, *(wk::SecretKey*) &kt, (wk::AttributeList*) &als, m, rng_cb);
+        ok = eq(g1s, g2s) && embedded_pairing_wkdibe_verify(&w.p, &als, &g1s, (ck*) &m); })
+    ROW(embedded_pairing_wkdibe_sign_precomputed, { make_key(t); gen(m, t); embedded_pairing_wkdibe_precompute(&pc1, &w.p, &als); bool nul = (t % 4 == 3) && als.length == (size_t) (L - kt.l) ;
+        RESEED(t); embedded_pairing_wkdibe_sign_precomputed(&g1s, &w.p, &kt, nul ? NULL : &als, &pc1, (ck*) &m, rng_cb); RESEED(t);
+        wk::sign_precomputed(*(wk::Signature*) &g2s, PP, *(wk::SecretKey*) &kt, nul ? NULL : (wk::AttributeList*) &als, *(wk::Precomputed*) &pc1, m, rng_cb);
+        ok = eq(g1s, g2s); })
+    ROW(embedded_pairing_wkdibe_verify, { make_key(t); gen(m, t + 2); RESEED(t); embedded_pairing_wkdibe_sign(&g1s, &w.p, &kt, &als, (ck*) &m, rng_cb); if (t % 3 == 0) m.bytes[0] ^= 1;
+        bool ra = embedded_pairing_wkdibe_verify(&w.p, &als, &g1s, (ck*) &m); bool rb = wk::verify(PP, *(wk::AttributeList*) &als, *(wk::Signature*) &g1s, m); ok = ra == rb && ra == (t % 3 != 0); })
+    ROW(embedded_pairing_wkdibe_verify_precomputed, { make_key(t); gen(m, t + 2); RESEED(t); embedded_pairing_wkdibe_sign(&g1s, &w.p, &kt, &als, (ck*) &m, rng_cb); if (t % 3 == 0) m.bytes[0] ^= 1; embedded_pairing_wkdibe_precompute(&pc1, &w.p, &als);
         bool ra = embedded_pairing_wkdibe_verify_precomputed(&w.p, &pc1, &g1s, (ck*) &m); bool rb = wk::verify_precomputed(PP, *(wk::Precomputed*) &pc1, *(wk::Signature*) &g1s, m); ok = ra == rb && ra == (t % 3 != 0); })
     BigInt<256> ka, kb; G1 ga, gb; G2 ha, hb; Fq12 ea, eb;
     ROW(embedded_pairing_wkdibe_scalar_hash_reduce, { rng_cb(ka.bytes, 32); if (t == 0) memset(ka.bytes, 0xff, 32); kb = ka; embedded_pairing_wkdibe_scalar_hash_reduce((ck*) &ka); wk::scalar_hash_reduce(kb); ok = eq(ka, kb); })
